@@ -39,6 +39,7 @@ fn fixture<V: VirtualFileSystem>(v: &V, r: &Path) {
     v.mkdir_m(r.join("e"), 0o750).unwrap();
     v.symlink(r.join("d/l"), r.join("d/f")).unwrap();
     v.symlink(r.join("d/ld"), r.join("d/sub")).unwrap();
+    v.symlink(r.join("d/lg"), r.join("d/g")).unwrap();
     v.mkdir_p(r.join("cfg/app")).unwrap();
 }
 
@@ -71,6 +72,9 @@ macro_rules! ops {
         $m!("append_all", |v, r| format!("{:?}", v.append_all(r.join("d/f"), "A")));
         $m!("append_line", |v, r| format!("{:?}", v.append_line(r.join("d/f"), "L")));
         $m!("append_lines", |v, r| format!("{:?}", v.append_lines(r.join("d/f"), &["p", "q"])));
+        $m!("append_lines_blank", |v, r| format!("{:?}", v.append_lines(r.join("d/f"), &["p", "", "q", ""])));
+        $m!("write_lines_blank", |v, r| format!("{:?}", v.write_lines(r.join("d/f"), &["", "1", "", "2"])));
+        $m!("append_line_blank", |v, r| format!("{:?}", v.append_line(r.join("d/f"), "")));
         $m!("chmod", |v, r| format!("{:?}", v.chmod(r.join("d/f"), 0o613)));
         $m!("chmod_b", |v, r| format!("{:?}", v.chmod_b(r.join("d")).unwrap().sym("f:u+x,d:o-rx").exec()));
         $m!("chown", |v, r| format!("{:?}", v.chown(r.join("d/f"), 5, 7)));
@@ -97,7 +101,16 @@ macro_rules! ops {
             let _ = v.chown(r.join("d/f"), 5, 7);
             format!("{:?}", v.gid(r.join("d/f")))
         });
-        $m!("is_exec", |v, r| format!("{:?} {:?} {:?}", v.is_exec(r.join("d/x")), v.is_exec(r.join("d/f")), v.is_exec(r.join("e"))));
+        $m!("is_exec", |v, r| format!(
+            "{:?} {:?} {:?} {:?} {:?}",
+            v.is_exec(r.join("d/x")),
+            v.is_exec(r.join("d/f")),
+            v.is_exec(r.join("e")),
+            v.is_exec(r.join("d/l")),
+            v.is_exec(r.join("d/ld"))
+        ));
+        $m!("is_readonly_links", |v, r| format!("{:?} {:?}", v.is_readonly(r.join("d/lg")), v.is_readonly(r.join("d/l"))));
+        $m!("mode_links", |v, r| format!("{:?} {:?}", v.mode(r.join("d/l")).map(|m| m & 0o170000), v.mode(r.join("d/ld")).map(|m| m & 0o170000)));
         $m!("is_dir", |v, r| format!("{:?} {:?} {:?}", v.is_dir(r.join("d")), v.is_dir(r.join("d/f")), v.is_dir(r.join("d/ld"))));
         $m!("is_file", |v, r| format!("{:?} {:?} {:?}", v.is_file(r.join("d")), v.is_file(r.join("d/f")), v.is_file(r.join("d/l"))));
         $m!("is_readonly", |v, r| format!(
